@@ -289,6 +289,18 @@ type twirpError struct {
 	Meta    map[string]string `json:"meta"`
 }
 
+// twirpCodeName returns the Twirp error code for a gRPC code. Twirp spells
+// two of them differently from google.rpc.Code.
+func twirpCodeName(c codes.Code) string {
+	switch c {
+	case codes.Canceled:
+		return "canceled"
+	case codes.DataLoss:
+		return "dataloss"
+	}
+	return strings.ToLower(code.Code_name[int32(c)])
+}
+
 func (m *Mux) encError(w http.ResponseWriter, r *http.Request, err error) {
 	s, _ := status.FromError(err)
 	if isTwirp := r.Header.Get("Twirp-Version") != ""; isTwirp {
@@ -297,7 +309,7 @@ func (m *Mux) encError(w http.ResponseWriter, r *http.Request, err error) {
 		w.Header().Set("Content-Type", accept)
 		w.WriteHeader(HTTPStatusCode(s.Code()))
 
-		codeStr := strings.ToLower(code.Code_name[int32(s.Code())])
+		codeStr := twirpCodeName(s.Code())
 
 		terr := &twirpError{
 			Code:    codeStr,
